@@ -264,6 +264,29 @@ def check_lifetimes(tr, msg, rec, res, tag=''):
     res.evals += 1
 
 
+def check_after_close(tr, res, tag=''):
+    """C03 after the input ended (connections closed): what was recorded about lifetimes stays as it was - the time of
+    every destruction, and the lifespan a delete_id line shows when it is printed again (`list` prints it again)"""
+    before = [str(m) for m in tr.msgs]
+    tr.parser.cleanup()
+    for tagname, mc in tr.world.conns.items():
+        rc = tr.conn_by_name(mc.name)
+        if rc is None:
+            continue
+        for i, l in mc.db.items():
+            for mo, ro in zip(l, rc.db.get(i, [])):
+                if mo.destroyed is not None and (ro.destroy_time is None or abs(ro.destroy_time * 1e6 - mo.destroyed) > 0.5):
+                    res.bad('after-close:destroy-time' + tag, '%r destroyed at %r after the connection closed, model %r us' % (mo.key(), ro.destroy_time, mo.destroyed))
+                if mo.destroyed is None and mo.created is not None and (ro.destroy_time is not None or not ro.alive):
+                    res.bad('after-close:never-deleted-object-destroyed' + tag, '%r has no delete_id; after the connection closed it reads destroyed at %r' % (mo.key(), ro.destroy_time))
+    after = [str(m) for m in tr.msgs]
+    for a, b in zip(before, after):
+        if a != b:
+            res.bad('after-close:line-reads-differently' + tag, 'before the end of input %r, printed again afterwards %r' % (a, b))
+            break
+    res.evals += 1
+
+
 def run_history(specs, checks, dialect='new', comma=False, res=None):
     """replay path (no Hypothesis): run the whole history, applying the comparisons after every step"""
     res = res or Result()
@@ -282,7 +305,7 @@ def run_history(specs, checks, dialect='new', comma=False, res=None):
 # ------------------------------------------------------------------------------------------------
 # Hypothesis rule-based machine over the step kinds of histgen
 
-def make_machine(col, stage, tier, checks, profile=None, max_conns=3, kinds=('message', 'delete', 'bind', 'server_event', 'sync', 'newer', 'retype', 'enum', 'midsession')):
+def make_machine(col, stage, tier, checks, profile=None, max_conns=3, kinds=('message', 'delete', 'bind', 'server_event', 'sync', 'newer', 'retype', 'enum', 'midsession', 'server_retype', 'repeat')):
     from hypothesis import strategies as st
     from hypothesis.stateful import RuleBasedStateMachine, rule, initialize, precondition
 
@@ -351,6 +374,12 @@ def make_machine(col, stage, tier, checks, profile=None, max_conns=3, kinds=('me
         if 'enum' in kinds:
             @rule(data=st.data())
             def enum_message(self, data): self._step(data, 'enum')
+        if 'repeat' in kinds:
+            @rule(data=st.data())
+            def same_message_again(self, data): self._step(data, 'repeat')
+        if 'server_retype' in kinds:
+            @rule(data=st.data())
+            def server_id_handed_out_again_for_another_interface(self, data): self._step(data, 'server_retype')
         if 'midsession' in kinds:
             @rule(data=st.data())
             def message_on_object_never_seen_created(self, data): self._step(data, 'midsession')
